@@ -40,7 +40,7 @@ def bounds(tier):
 def goals(tier):
     return ["every-enzyme:" + n for n, _ in gen.enzymes()] + ["k=3", "origin-in-site", "origin-in-filler", "origin-in-overhang", "origin-in-target",
             "origin-in-backbone", "non-identity-permutation", "palindromic-junction", "min-body", "empty-backbone",
-            "empty-placeholder", "content-exhaustive", "every-overhang-word", "lower-case-participant", "awkward-content", "large-plasmid", "long-chain", "annotated-participants"]
+            "empty-placeholder", "content-exhaustive", "every-overhang-word", "lower-case-participant", "awkward-content", "large-plasmid", "long-chain", "annotated-participants", "ambiguity-codes-in-a-backbone"]
 
 
 def base_points(tier):
@@ -340,7 +340,12 @@ def unit_menu(st, name, tier):
     for where in ("body0", "body1", "vbb", "mbb0", "vph"):
         j = {"body0": 0, "body1": 1}.get(where)
         o5, o3 = (o[j], o[j + 1]) if j is not None else (o[2], o[0])
-        for word in gen.content_menu(g, o5, o3):
+        words_ = list(gen.content_menu(g, o5, o3))
+        if where in ("vbb", "mbb0"):
+            # the backbones lie outside the structure: every IUPAC letter is legal there, in either case
+            words_ += ["ACRYAC", "AKMBDHVSWA", "TTrykmTTbdhvswnAA", "ARRRRA"]    # (the two letters next to a vector's overhangs belong to its structure: nucleotides)
+            st.goal("ambiguity-codes-in-a-backbone")
+        for word in words_:
             scn = dict(base)
             if j is not None:
                 scn["bodies"] = [word if i == j else b for i, b in enumerate(base["bodies"])]
